@@ -158,7 +158,7 @@ func bodyCluster(c *sim.Ctx) {
 	disk := sim.NewDisk(c)
 	installOpHooks(c, disk)
 	w := &cluWorld{c: c, prop: prop, disk: disk, net: newSimNet(c), workers: map[string]*simWorker{}, published: map[uint64]*snapshotpb.JobCheckpoint{}, allPublished: map[uint64]*snapshotpb.JobCheckpoint{},
-		streams: map[string][]streamItem{}, regs: map[string]map[string]bool{}, startCkpt: map[uint64]int{},
+		streams: map[string][]streamItem{}, regs: map[string]map[string]bool{}, startCkpt: map[uint64]int{}, startedFor: map[uint64]map[string]bool{},
 		kgs: int(c.Cfg("kgs", 8)), workerCount: int(c.Cfg("workers", 1))}
 	// input
 	dr := mrand.New(mrand.NewPCG(uint64(c.Cfg("dataseed", 1)), 21))
@@ -549,10 +549,26 @@ func (w *cluWorld) requestSavepoint() {
 
 // inFlight: id of a checkpoint that was started and neither published nor abandoned (0 = none). Caller holds w.mu.
 func (w *cluWorld) inFlight() uint64 {
+	// members of the current assembly = the runner list of the latest operator deployment
+	cur := map[string]bool{}
+	for i := len(w.deploys) - 1; i >= 0; i-- {
+		if w.deploys[i].kind == "op" {
+			for _, sr := range w.deploys[i].srs {
+				cur[sr] = true
+			}
+			break
+		}
+	}
 	var ids []uint64
 	for id := range w.startCkpt {
-		if w.published[id] == nil && id > w.abandonedUpTo {
-			ids = append(ids, id)
+		if w.published[id] != nil || id <= w.abandonedUpTo {
+			continue
+		}
+		for sr := range w.startedFor[id] {
+			if cur[sr] { // a late StartCheckpoint to a member of an abandoned assembly does not count
+				ids = append(ids, id)
+				break
+			}
 		}
 	}
 	sort.Slice(ids, func(i, j int) bool { return ids[i] < ids[j] })
